@@ -84,7 +84,7 @@ def _closure_args_pure(e):
         if canon is None:
             continue
         f = F.fn_by_canon(canon) if F is not None else None
-        if f is None or sym._has_effects(_E, f):
+        if f is None or sym._has_effects(_E, f, F):
             return False
     return True
 
